@@ -2039,10 +2039,17 @@ private:
 
     std::vector<std::exception_ptr, rebind_alloc<std::exception_ptr>> eptrs(
         num_workers, nullptr, get_allocator());
-    for (size_type i = 0; i < num_extra_threads; ++i) {
-      threads.emplace_back(func, start, start + work_per_thread,
-                           std::ref(eptrs[i]));
-      start += work_per_thread;
+    // If a helper thread cannot be created, the threads that are already
+    // running must still be joined (destroying a joinable std::thread
+    // terminates the process), so the calling thread does the work that has not
+    // been handed out itself.
+    try {
+      for (size_type i = 0; i < num_extra_threads; ++i) {
+        threads.emplace_back(func, start, start + work_per_thread,
+                             std::ref(eptrs[i]));
+        start += work_per_thread;
+      }
+    } catch (...) {
     }
     func(start, end, std::ref(eptrs.back()));
     for (std::thread &t : threads) {
